@@ -624,7 +624,7 @@ class FieldValueComponentUrl(FieldValueComponentKeyValueBase):
     def _value_validate(self, _, value):
         self.value = convert_url()(value)
 
-        if isinstance(self.value, urllib3.util.Url):
+        if isinstance(self.value, urllib3.util.Url) and self.value.scheme is not None:
             return
 
         raise InvalidValue(self.value, type(self), 'value')
